@@ -57,6 +57,14 @@ let suite_acctlife (line : string) : string =
   let out = ref [] in
   for _ = 1 to nops do
     let op = ni t in
+    if op = 6 then begin
+      (* transfer_to_new_account_pda *)
+      let o = nn t in let n = nn t in let s = nz t in let na_ = nz t in let fw = nz t in
+      let res = match M.h_transfer_pda !w o n s na_ fw with
+        | M.Ok w' -> w := w'; "OK"
+        | M.Err e -> err_s e in
+      out := (res ^ " # " ^ dump_lw !w) :: !out
+    end else begin
     let o : M.lop =
       match op with
       | 1 -> let a = nn t in let s = nz t in M.LClose (a, s)
@@ -69,6 +77,7 @@ let suite_acctlife (line : string) : string =
       | M.Ok w' -> w := w'; "OK"
       | M.Err e -> err_s e in
     out := (res ^ " # " ^ dump_lw !w) :: !out
+    end
   done;
   Stdlib.String.concat " | " (Stdlib.List.rev !out)
 
